@@ -111,6 +111,62 @@ pub fn run(tier: &str) -> Result<Report, String> {
                     }
                     rep.add_count("context_bundle_orders", 2);
                 }
+                // ... a public evaluation context that is EXTENDED TWICE: the second registration of a label replaces its set
+                // (formulae in which every wild-card proposition occurs at most once, so that the first round uses up every
+                // counter; first round with the sets of this family, second round with their complements)
+                if b.name == "con2" {
+                    use biodivine_hctl_model_checker::evaluation::algorithm::{compute_steady_states, eval_node};
+                    use biodivine_hctl_model_checker::evaluation::eval_context::EvalContext;
+                    use biodivine_hctl_model_checker::mc_utils::collect_unique_wild_cards;
+                    use biodivine_hctl_model_checker::preprocessing::parser::parse_and_minimize_extended_formula;
+                    use biodivine_lib_param_bn::biodivine_std::traits::Set;
+                    let unit = b.graph.mk_unit_colored_vertices();
+                    let steady = compute_steady_states(&b.graph);
+                    let second: std::collections::HashMap<String, biodivine_lib_param_bn::symbolic_async_graph::GraphColoredVertices> = ctx.sets.iter().map(|(l, s)| (l.clone(), unit.minus(s))).collect();
+                    let mut n_twice = 0u64;
+                    for f in fs.iter().filter(|f| f.size() <= 4) {
+                        let text = f.show(&ctx.user);
+                        let tree = match parse_and_minimize_extended_formula(b.graph.symbolic_context(), &text) {
+                            Ok(t) => t,
+                            Err(_) => continue,
+                        };
+                        let (ws, ds) = collect_unique_wild_cards(tree.clone());
+                        // every wild-card proposition at most once in the text
+                        if ws.iter().any(|w| text.matches(&format!("%{w}%")).count() - text.matches(&format!("in %{w}%")).count() > 1) {
+                            continue;
+                        }
+                        n_twice += 1;
+                        let pick = |m: &std::collections::HashMap<String, biodivine_lib_param_bn::symbolic_async_graph::GraphColoredVertices>, names: &std::collections::HashSet<String>| -> std::collections::HashMap<String, biodivine_lib_param_bn::symbolic_async_graph::GraphColoredVertices> { names.iter().map(|n| (n.clone(), m[n].clone())).collect() };
+                        let r = crate::report::guarded(std::panic::AssertUnwindSafe(|| {
+                            let mut c = EvalContext::from_single_tree(&tree);
+                            c.extend_context_with_wild_cards(&pick(&ctx.sets, &ws), &pick(&ctx.sets, &ds));
+                            let r1 = eval_node(tree.clone(), &b.graph, &mut c, &steady, &mut |_, _| {});
+                            c.extend_context_with_wild_cards(&pick(&second, &ws), &pick(&second, &ds));
+                            let r2 = eval_node(tree.clone(), &b.graph, &mut c, &steady, &mut |_, _| {});
+                            (r1, r2)
+                        }));
+                        let e1 = biodivine_hctl_model_checker::model_checking::model_check_extended_formula_dirty(&text, &b.graph, &ctx.sets);
+                        let e2 = biodivine_hctl_model_checker::model_checking::model_check_extended_formula_dirty(&text, &b.graph, &second);
+                        let what = match (r, e1, e2) {
+                            (Ok((r1, r2)), Ok(e1), Ok(e2)) => {
+                                if r1 != e1 {
+                                    Some("first evaluation on the context differs from the entry point".to_string())
+                                } else if r2 != e2 {
+                                    Some("after the labels were registered again with other sets, the evaluation does not use the sets registered last".to_string())
+                                } else {
+                                    None
+                                }
+                            }
+                            (Err(p), _, _) => Some(format!("panic: {p}")),
+                            (_, e1, e2) => Some(format!("entry point fails: {:?} / {:?}", e1.err(), e2.err())),
+                        };
+                        if let Some(w) = what {
+                            rep.violations.push(Violation { case: json!({"kind": "none"}), what: format!("evaluation context extended twice, `{text}` on con2 labels=mixed: {w}"), size: 30 + f.size() });
+                        }
+                    }
+                    rep.evaluations += n_twice * 4;
+                    rep.add_count("context_extended_twice_cases", n_twice);
+                }
                 // ... the long spellings of the quantifiers (\\exists, \\forall, \\bind, \\jump) mean the same
                 {
                     use rayon::prelude::*;
@@ -189,7 +245,7 @@ pub fn run(tier: &str) -> Result<Report, String> {
         rep.set("wide_models", json!(big));
     }
     rep.set("slices", json!(slices));
-    rep.rule = "all closed extended formulae with at most max_nodes nodes that contain a wild-card or a domain, plus the extended template families (nested and repeated domains, the same inner domain under different outer domains, pattern and duplicate shapes inside domain scopes) and the pair family (every ordered pair of the collision alphabet joined by & / |, and nested as Q{x} in %d%: (A & @{x}: B)), x every label family (context-set assignment; the mixed family also under the label names 1, false, True / 0, true, V, under non-ASCII label names, with the context sets loaded from a bundle that also holds decoy entries (sub-directory, other suffixes; stored before / after the real entries), and with every quantifier written in its long spelling \\exists / \\forall / \\bind / \\jump), through model_check_extended_formula(_dirty), compared with the explicit-state oracle on every state x valid colour (and: raw results inside the unit set, independent of spare variables); plus the operator sweep: every unary/binary operator and every quantifier form with/without domains on EVERY coloured set (and every pair of sets) of tiny networks; plus, on synthetic wide models with more than 2^53 state x colour pairs, the three README equivalences for 7 bodies x 7 domains (full, empty, all but one state, all but one (state, colour) pair, one state, ...) and the closed forms `!{x} in %d%: True` = d, `3{x} in %d%: @{x}: ~%d%` = empty, `V{x} in %d%: @{x}: %d%` = everything; distinct_nontrivial = distinct non-trivial (network, labels, verdict table)".into();
+    rep.rule = "all closed extended formulae with at most max_nodes nodes that contain a wild-card or a domain, plus the extended template families (nested and repeated domains, the same inner domain under different outer domains, pattern and duplicate shapes inside domain scopes) and the pair family (every ordered pair of the collision alphabet joined by & / |, and nested as Q{x} in %d%: (A & @{x}: B)), x every label family (context-set assignment; the mixed family also under the label names 1, false, True / 0, true, V, under non-ASCII label names, with the context sets loaded from a bundle that also holds decoy entries (sub-directory, other suffixes; stored before / after the real entries), with a public evaluation context extended twice (second registration of every label with the complement set), and with every quantifier written in its long spelling \\exists / \\forall / \\bind / \\jump), through model_check_extended_formula(_dirty), compared with the explicit-state oracle on every state x valid colour (and: raw results inside the unit set, independent of spare variables); plus the operator sweep: every unary/binary operator and every quantifier form with/without domains on EVERY coloured set (and every pair of sets) of tiny networks; plus, on synthetic wide models with more than 2^53 state x colour pairs, the three README equivalences for 7 bodies x 7 domains (full, empty, all but one state, all but one (state, colour) pair, one state, ...) and the closed forms `!{x} in %d%: True` = d, `3{x} in %d%: @{x}: ~%d%` = empty, `V{x} in %d%: @{x}: %d%` = everything; distinct_nontrivial = distinct non-trivial (network, labels, verdict table)".into();
     Ok(rep)
 }
 
